@@ -526,18 +526,17 @@ example : Reach 2 { Hp.init with tasks := [Task.colWant] } := Reach.step Reach.i
     `shard_and_count` (an observer's or a batch's claim) is at least Acquire, every `flip` at least
     AcqRel, every explicitly ordered increment of a shard's `count` (the publish) at least Release,
     every compare-exchange on a `count` (the collector's spin) at least Acquire on success, every swap
-    of a `sum` or of `buckets` (read-and-reset of the cold cells) at least AcqRel -/
+    in the file, whatever its receiver is called (read-and-reset of the cold cells), at least AcqRel -/
 def orderingRules : List (String × List String × Nat × String) :=
   [("shard_and_count", ["inc", "inc_by"], 0, "Acquire"),
    ("shard_and_count", ["flip"], 0, "AcqRel"),
    ("count", ["inc_by_with_ordering"], 0, "Release"),
    ("count", ["compare_exchange_weak", "compare_exchange"], 0, "Acquire"),
-   ("sum", ["swap"], 0, "AcqRel"),
-   ("buckets", ["swap"], 0, "AcqRel")]
+   ("*", ["swap"], 0, "AcqRel")]
 
 /-- the sites of `src/histogram.rs` a rule speaks about -/
 def ruleSites (r : String × List String × Nat × String) : List Gen.OrdSite :=
-  Gen.orderingSites.filter fun s => s.file == "histogram.rs" && s.recv == r.1 && r.2.1.contains s.meth && s.arg == r.2.2.1
+  Gen.orderingSites.filter fun s => s.file == "histogram.rs" && (r.1 == "*" || s.recv == r.1) && r.2.1.contains s.meth && s.arg == r.2.2.1
 
 /-- **source_orderings_suffice** — over the table REGENERATED from `src/histogram.rs` on every run
     (`translate/orderings.py`): for every rule there IS such a call site in the source, and EVERY
